@@ -372,6 +372,7 @@ def matrix_schema():
              M.TypeDef('sel1', 'select', members=['label', 'len', 'colour'])]
     kinds = [('int', M.INT()), ('real', M.REAL()), ('num', M.T('NUMBER')), ('str', M.STR()), ('bin', M.T('BINARY')), ('bool', M.T('BOOLEAN')),
              ('logi', M.T('LOGICAL')), ('enum', M.NAMED('colour')), ('ent', M.ENT('tgt')), ('agg', M.AGG('LIST', M.INT(), 0, None)),
+             ('aopt', M.AGG('ARRAY', M.INT(), 1, 2, optional=True)),   # ARRAY OF OPTIONAL: the ELEMENTS are optional, the attribute is not
              ('sel', M.NAMED('sel1'))]
     ents = [M.Entity('tgt', attrs=[M.Attr('n', M.INT())])]
     for nm, t in kinds:
@@ -394,7 +395,7 @@ def matrix_cases(chk):
         chk.inconc('matrix schema library could not be built: %s' % str(lib.fail)[:300])
         return []
     rng = random.Random('c03-matrix')
-    pg = gen_p21.PopGen(s, rng, avoid=AVOID_POP | {'complex'}, strs=['', 'a', "it''s"])
+    pg = gen_p21.PopGen(s, rng, avoid=AVOID_POP | {'complex', 'array_optional_null'}, strs=['', 'a', "it''s"])
     pop = pg.population(n_extra=0, with_complex=False)
     # fill OPTIONAL last attributes with values too (so that every class applies) and add one complex instance
     insts = []
